@@ -137,6 +137,40 @@ func runC14(o *opts) (*summary, error) {
 		}
 		put(jsonRT("datetime", zone, projDT(v), v, func() any { return new(types.DateTime) }, func(x any) any { return projDT(x.(types.DateTime)) }), "json-datetime")
 	}
+	// instants around the zone's own transitions: the hour that occurs twice when clocks are set back is told
+	// apart only by the zone abbreviation in the text (transitions that keep the abbreviation cannot be told
+	// apart by this format at all and are left out)
+	{
+		trans := []int64{}
+		t := time.Date(1900, 1, 1, 12, 0, 0, 0, time.Local)
+		limit := time.Date(2100, 1, 1, 0, 0, 0, 0, time.UTC)
+		for i := 0; i < 2000; i++ {
+			_, end := t.ZoneBounds()
+			if end.IsZero() || end.After(limit) {
+				break
+			}
+			nb, _ := end.Add(-time.Second).Zone()
+			na, _ := end.Zone()
+			if nb != na {
+				trans = append(trans, end.Unix())
+			}
+			t = end.Add(time.Hour)
+		}
+		k := 40
+		if thorough {
+			k = len(trans)
+		}
+		for i := 0; i < k && len(trans) > 0; i++ {
+			e := trans[len(trans)-1-i%len(trans)]
+			if i >= len(trans) || !thorough && i%2 == 1 {
+				e = trans[rng.Intn(len(trans))]
+			}
+			for _, off := range []int64{-3600, -1800, -1, 0, 1, 1799, 1800, 3599, 3600} {
+				v := types.DateTime(time.Unix(e+off, 0).In(time.Local))
+				put(jsonRT("datetime", zone, projDT(v), v, func() any { return new(types.DateTime) }, func(x any) any { return projDT(x.(types.DateTime)) }), "json-datetime-transition")
+			}
+		}
+	}
 	if zonedOnly {
 		return w.close(), nil
 	}
